@@ -8,6 +8,7 @@ CONSTANTS
   Messages = {}
   MaxMsgs = 0
   MaxFrames = 5
+  Targeted = FALSE
   HeaderMode = FALSE
 ACTION_CONSTRAINT Emit
 CHECK_DEADLOCK FALSE
